@@ -44,7 +44,8 @@ def main():
     if "--tier" in sys.argv:
         tier = sys.argv[sys.argv.index("--tier") + 1]
         args = [a for a in args if a != tier]
-    results = {}
+    rp = os.path.join(VERIF, "selftest", "results.json")
+    results = json.load(open(rp)) if os.path.exists(rp) and args else {}
     for name, patch, props in collect(args):
         tmp = tempfile.mkdtemp(prefix="hv-mut-")
         try:
